@@ -305,6 +305,24 @@ def binop(P, op, a, b):
         return r
     if isinstance(op, ast.BitOr) and isinstance(a, (set, frozenset, dict)) and isinstance(b, (set, frozenset, dict)):
         return a | b
+    if isinstance(op, ast.BitOr) and (isinstance(a, SymSet) or isinstance(b, SymSet)):
+        r = SymSet()
+        for x in (a, b):
+            if isinstance(x, SymSet):
+                r.items.extend(x.items)
+                r.parts.extend(x.parts)
+            elif isinstance(x, (set, frozenset)):
+                r.items.extend(sorted(x, key=repr))
+            else:
+                raise _unsup("set union with non-set")
+        return r
+    if isinstance(op, ast.Sub) and isinstance(a, SymSet) and isinstance(b, (SymSet, set, frozenset)):
+        bitems = b.items if isinstance(b, SymSet) else list(b)
+        if isinstance(b, SymSet) and b.parts:
+            raise _unsup("set difference with symbolic part")
+        if all(not is_sym(x) and not isinstance(x, SObj) for x in a.items + bitems) and not a.parts:
+            return SymSet([x for x in a.items if x not in bitems])
+        raise _unsup("set difference of symbolic sets")
     if isinstance(a, SObj):
         nm = {ast.Add: "__add__", ast.Sub: "__sub__", ast.BitOr: "__or__", ast.BitAnd: "__and__", ast.Truediv if hasattr(ast, "Truediv") else ast.Div: "__truediv__"}.get(type(op))
         if nm:
@@ -346,6 +364,11 @@ def contains(P, container, item):
         return z3.Exists([j], z3.And(j >= 0, j < zint(n), zbool(body)))
     if isinstance(container, SetOfSeq):
         return contains(P, container.seq, item)
+    if isinstance(container, SymSet):
+        cs = [P.eq(item, x) for x in container.items] + [contains(P, s_, item) for s_ in container.parts]
+        if all(isinstance(c, bool) for c in cs):
+            return any(cs)
+        return z3.Or(*[zbool(c) for c in cs])
     if isinstance(container, SObj):
         cname = P.resolve_cls(container)
         h = None
@@ -617,17 +640,19 @@ def delitem(P, c, k):
 
 
 def make_set(P, items):
-    items = list(items)
-    if all(not is_sym(x) and not isinstance(x, SObj) for x in items):
-        return set(items)
-    return SymSet(items)
+    return SymSet(list(items))
 
 
 class SymSet:
-    """A set with possibly symbolic members, represented by its list of insertions."""
+    """A mutable set with possibly symbolic members, represented by its list of insertions (duplicates allowed).
+    `parts` holds symbolic-length sequences merged into the set (membership only)."""
 
-    def __init__(self, items=()):
+    def __init__(self, items=(), parts=()):
         self.items = list(items)
+        self.parts = list(parts)
+
+    def copy(self):
+        return SymSet(self.items, self.parts)
 
 
 # --------------------------------------------------------------------------- method calls on builtin-typed receivers
@@ -828,11 +853,22 @@ def call_method(P, recv, name, args, kwargs):
             return None
         if name == "update":
             for a in args:
+                if isinstance(a, SymSet):
+                    recv.items.extend(a.items)
+                    recv.parts.extend(a.parts)
+                    continue
                 s = P.to_seq(a)
                 if not isinstance(s, (list, tuple)):
-                    raise _unsup("SymSet.update with symbolic-length")
-                recv.items.extend(s)
+                    recv.parts.append(s)
+                else:
+                    recv.items.extend(s)
             return None
+        if name == "copy":
+            return recv.copy()
+        if name in ("union",):
+            r = recv.copy()
+            call_method(P, r, "update", args, {})
+            return r
         if name == "discard":
             raise _unsup("SymSet.discard")
     if isinstance(recv, Opaque):
@@ -1013,11 +1049,13 @@ def _b_tuple(P, a, k):
 
 def _b_set(P, a, k):
     if not a:
-        return set()
+        return SymSet()
+    if isinstance(a[0], SymSet):
+        return a[0].copy()
     s = P.to_seq(a[0])
     if isinstance(s, (list, tuple)):
         return make_set(P, s)
-    return SetOfSeq(s)
+    return SymSet([], [s])
 
 
 class SetOfSeq:
